@@ -21,7 +21,7 @@ var libInvokeMods = map[string][]string{
 
 func libAllocates(name string) bool {
 	switch name {
-	case "bytes.NewBuffer", "bufio.NewReader", "bufio.NewReaderSize", "errors.New", "fmt.Errorf", "net.DialTCP", "net.Dial", "net.ResolveUDPAddr", "net.ResolveTCPAddr":
+	case "bytes.NewBuffer", "bytes.NewBufferString", "strings.NewReader", "io.LimitReader", "bufio.NewReader", "bufio.NewReaderSize", "errors.New", "fmt.Errorf", "net.DialTCP", "net.Dial", "net.ResolveUDPAddr", "net.ResolveTCPAddr":
 		return true
 	}
 	return false
@@ -38,10 +38,22 @@ func libModVars(ex *Exec, name string) []string {
 		return vs
 	}
 	switch name {
-	case "fmt.Fprintf", "(*bytes.Buffer).Write", "(*bytes.Buffer).WriteString", "bytes.NewBuffer":
+	case "fmt.Fprintf", "(*bytes.Buffer).Write", "(*bytes.Buffer).WriteString":
 		return reg("W")
+	case "bytes.NewBuffer":
+		return reg("W", "RS")
+	case "bufio.NewReader", "bufio.NewReaderSize", "(*bufio.Reader).ReadByte", "(*bufio.Reader).UnreadByte", "(*bufio.Reader).ReadLine", "io.ReadAll", "(*bufio.Reader).Peek", "(*bufio.Reader).Discard":
+		return reg("RS", "RU", "RE")
+	case "strings.NewReader", "bytes.NewBufferString":
+		return reg("RS", "W")
+	case "io.LimitReader":
+		return reg("limitMarks")
 	case "time.Now":
 		return reg("now")
+	default:
+		if strings.HasPrefix(name, "(*bufio.Reader).") {
+			return reg("RS", "RU", "RE")
+		}
 	case "github.com/google/uuid.NewRandom":
 		return reg("uuidDraws")
 	case "net.DialTCP", "net.Dial":
@@ -207,7 +219,120 @@ func init() {
 			r := ex.alloc(fr.cur, "buf")
 			wv := fr.ghost("W")
 			ex.set(fr.cur, wv, "(store "+ex.get(fr.cur, wv)+" "+r+" "+a[0].T+")")
+			fr.setStream(r, a[0].T)
 			return &Val{T: r, S: SRef("bytes_Buffer")}
+		},
+		"bytes.NewBufferString": func(fr *Frame, ins ssa.Instruction, a []*Val, rs *Sort) *Val {
+			ex := fr.ex
+			r := ex.alloc(fr.cur, "buf")
+			wv := fr.ghost("W")
+			ex.set(fr.cur, wv, "(store "+ex.get(fr.cur, wv)+" "+r+" "+a[0].T+")")
+			fr.setStream(r, a[0].T)
+			return &Val{T: r, S: SRef("bytes_Buffer")}
+		},
+		"strings.NewReader": func(fr *Frame, ins ssa.Instruction, a []*Val, rs *Sort) *Val {
+			r := fr.ex.alloc(fr.cur, "strreader")
+			fr.setStream(r, a[0].T)
+			return &Val{T: r, S: SRef("strings_Reader")}
+		},
+		"bufio.NewReader": func(fr *Frame, ins ssa.Instruction, a []*Val, rs *Sort) *Val {
+			return fr.newBufioReader(a[0])
+		},
+		"bufio.NewReaderSize": func(fr *Frame, ins ssa.Instruction, a []*Val, rs *Sort) *Val {
+			return fr.newBufioReader(a[0])
+		},
+		"(*bufio.Reader).ReadByte": func(fr *Frame, ins ssa.Instruction, a []*Val, rs *Sort) *Val {
+			// one byte is delivered, or an error (always at end of stream) and nothing is consumed
+			ex := fr.ex
+			rd := a[0].T
+			cur := fr.stream(rd)
+			errv := fr.havocVal("rberr", SAny)
+			ok := eq(errv.T, "anyNil")
+			ex.vc.assume(imp(eq(cur, "\"\""), not(ok)))
+			b := ex.vc.define("rbyte", SInt, ite(ok, "(str.to_code (str.at "+cur+" 0))", "0"))
+			fr.setStream(rd, ite(ok, "(str.substr "+cur+" 1 (str.len "+cur+"))", cur))
+			fr.setGhostAt("RU", rd, ite(ok, "(str.at "+cur+" 0)", "\"\""))
+			fr.bumpEpoch(rd)
+			return tuple(&Val{T: b, S: SInt}, errv)
+		},
+		"(*bufio.Reader).UnreadByte": func(fr *Frame, ins ssa.Instruction, a []*Val, rs *Sort) *Val {
+			// succeeds exactly when the last operation was a successful ReadByte (or a read that left a byte to restore)
+			ex := fr.ex
+			rd := a[0].T
+			cur := fr.stream(rd)
+			ru := "(select " + ex.get(fr.cur, fr.ghost("RU")) + " " + rd + ")"
+			errv := fr.havocVal("uberr", SAny)
+			ok := eq(errv.T, "anyNil")
+			ex.vc.assume(eq(ok, not(eq(ru, "\"\""))))
+			fr.setStream(rd, ite(ok, "(str.++ "+ru+" "+cur+")", cur))
+			fr.setGhostAt("RU", rd, "\"\"")
+			fr.bumpEpoch(rd)
+			return errv
+		},
+		"(*bufio.Reader).Buffered": func(fr *Frame, ins ssa.Instruction, a []*Val, rs *Sort) *Val {
+			// some of the undelivered bytes are already in the window: how many depends on segmentation
+			n := fr.havocVal("buffered", SInt)
+			fr.ex.vc.assume(and("(>= "+n.T+" 0)", "(<= "+n.T+" (str.len "+fr.stream(a[0].T)+"))"))
+			return n
+		},
+		"(*bufio.Reader).Peek": func(fr *Frame, ins ssa.Instruction, a []*Val, rs *Sort) *Val {
+			// the next n bytes without consuming them; the slice is a view of the reader's window
+			ex := fr.ex
+			rd := a[0].T
+			cur := fr.stream(rd)
+			errv := fr.havocVal("peekerr", SAny)
+			k := "(ite (<= " + a[1].T + " (str.len " + cur + ")) " + a[1].T + " (str.len " + cur + "))"
+			ex.vc.assume(imp(eq(errv.T, "anyNil"), "(<= "+a[1].T+" (str.len "+cur+"))"))
+			res := ex.vc.define("peek", SString, "(str.substr "+cur+" 0 "+k+")")
+			fr.bumpEpoch(rd)
+			re := "(select " + ex.get(fr.cur, fr.ghost("RE")) + " " + rd + ")"
+			return tuple(&Val{T: res, S: SString, Borrow: &Borrow{Active: "true", Reader: rd, Epoch: ex.vc.define("peekepoch", SInt, re)}}, errv)
+		},
+		"(*bufio.Reader).Discard": func(fr *Frame, ins ssa.Instruction, a []*Val, rs *Sort) *Val {
+			ex := fr.ex
+			rd := a[0].T
+			cur := fr.stream(rd)
+			errv := fr.havocVal("discarderr", SAny)
+			got := ex.vc.fresh("discarded", SInt)
+			k := "(ite (<= " + a[1].T + " (str.len " + cur + ")) " + a[1].T + " (str.len " + cur + "))"
+			ex.vc.assume(and("(>= "+got+" 0)", "(<= "+got+" "+k+")", imp(eq(errv.T, "anyNil"), eq(got, a[1].T))))
+			fr.setStream(rd, "(str.substr "+cur+" "+got+" (str.len "+cur+"))")
+			fr.setGhostAt("RU", rd, "\"\"")
+			fr.bumpEpoch(rd)
+			return tuple(&Val{T: got, S: SInt}, errv)
+		},
+		"(*bufio.Reader).ReadLine": func(fr *Frame, ins ssa.Instruction, a []*Val, rs *Sort) *Val {
+			return fr.readLine(a[0])
+		},
+		"io.LimitReader": func(fr *Frame, ins ssa.Instruction, a []*Val, rs *Sort) *Val {
+			ex := fr.ex
+			r := ex.alloc(fr.cur, "limitreader")
+			v := &Val{T: fmt.Sprintf("(mkAny %d %s \"\")", ex.typeIDByName("*io.LimitedReader"), r), S: SAny}
+			if src := readerRef(a[0]); src != "" {
+				v.Lim = &LimInfo{Src: src, N: a[1].T}
+				g := fr.ghost("limitMarks")
+				ex.set(fr.cur, g, sqApp(ex.get(fr.cur, g), sqUnit(fr.stream(src), SString), SString))
+			}
+			return v
+		},
+		"io.ReadAll": func(fr *Frame, ins ssa.Instruction, a []*Val, rs *Sort) *Val {
+			// reads until end of stream or error; through a LimitReader at most N bytes
+			ex := fr.ex
+			errv := fr.havocVal("raerr", SAny)
+			if a[0].Lim == nil {
+				ex.vc.note("io.ReadAll on an untracked reader: result unconstrained")
+				return tuple(fr.havocVal("readall", SString), errv)
+			}
+			src, n := a[0].Lim.Src, a[0].Lim.N
+			cur := fr.stream(src)
+			k := ex.vc.define("rak", SInt, "(ite (< "+n+" 0) 0 (ite (<= "+n+" (str.len "+cur+")) "+n+" (str.len "+cur+")))")
+			got := ex.vc.fresh("ragot", SInt) // bytes delivered before an error, all of them without
+			ex.vc.assume(and("(>= "+got+" 0)", "(<= "+got+" "+k+")", imp(eq(errv.T, "anyNil"), eq(got, k))))
+			res := ex.vc.define("readall", SString, "(str.substr "+cur+" 0 "+got+")")
+			fr.setStream(src, "(str.substr "+cur+" "+got+" (str.len "+cur+"))")
+			fr.setGhostAt("RU", src, "\"\"")
+			fr.bumpEpoch(src)
+			return tuple(&Val{T: res, S: SString}, errv)
 		},
 		"(*bytes.Buffer).String": func(fr *Frame, ins ssa.Instruction, a []*Val, rs *Sort) *Val {
 			return &Val{T: "(select " + fr.ex.get(fr.cur, fr.ghost("W")) + " " + a[0].T + ")", S: SString}
@@ -482,6 +607,12 @@ func (fr *Frame) callLib(ins ssa.Instruction, callee *ssa.Function, args []*Val,
 		return fr.havocVal("zap", resSort)
 	}
 	ex.vc.note("library call " + name + ": results unconstrained, no effect on tracked state")
+	if strings.HasPrefix(name, "(*bufio.Reader).") && len(args) > 0 {
+		// an unmodelled reader operation: what it leaves undelivered is unknown, earlier views are invalid
+		fr.setStream(args[0].T, ex.vc.fresh("unkstream", SString))
+		fr.setGhostAt("RU", args[0].T, ex.vc.fresh("unkunread", SString))
+		fr.bumpEpoch(args[0].T)
+	}
 	r := fr.havocVal("lib_"+callee.Name(), resSort)
 	switch name {
 	case "(*net.UDPConn).LocalAddr", "(*net.UDPConn).RemoteAddr", "(*net.TCPConn).LocalAddr", "(*net.TCPConn).RemoteAddr", "(*net.conn).LocalAddr", "(*net.conn).RemoteAddr", "(*net.TCPListener).Addr", "go.uber.org/zap.L", "zap.L":
@@ -493,6 +624,101 @@ func (fr *Frame) callLib(ins ssa.Instruction, callee *ssa.Function, args []*Val,
 	}
 	ex.libResultConvention(name, callee.Signature, r)
 	return r
+}
+
+// ---- byte streams ----
+
+func (fr *Frame) stream(ref string) string {
+	return "(select " + fr.ex.get(fr.cur, fr.ghost("RS")) + " " + ref + ")"
+}
+
+func (fr *Frame) setGhostAt(g, ref, val string) {
+	ex := fr.ex
+	gv := fr.ghost(g)
+	ex.set(fr.cur, gv, "(store "+ex.get(fr.cur, gv)+" "+ref+" "+val+")")
+}
+
+func (fr *Frame) setStream(ref, val string) { fr.setGhostAt("RS", ref, val) }
+
+func (fr *Frame) bumpEpoch(ref string) {
+	re := "(select " + fr.ex.get(fr.cur, fr.ghost("RE")) + " " + ref + ")"
+	fr.setGhostAt("RE", ref, "(+ "+re+" 1)")
+}
+
+// readerRef: the reference of the reader object inside an io.Reader interface value ("" if unknown).
+func readerRef(v *Val) string {
+	if v.S.K == KRef {
+		return v.T
+	}
+	if v.S.K == KAny {
+		if len(v.Elems) == 1 && v.Elems[0] != nil && v.Elems[0].S.K == KRef {
+			return v.Elems[0].T
+		}
+		return "(refOf " + v.T + ")"
+	}
+	return ""
+}
+
+// newBufioReader: a buffered reader delivers the bytes of its source. For an in-memory source (bytes.Buffer,
+// strings.Reader) these are the source's remaining bytes; for any other source (a network connection) they
+// are all the bytes the source will ever deliver - fixed but unknown.
+func (fr *Frame) newBufioReader(src *Val) *Val {
+	ex := fr.ex
+	r := ex.alloc(fr.cur, "bufreader")
+	inMem := false
+	if src.Dyn != nil {
+		switch src.Dyn.String() {
+		case "*bytes.Buffer", "*strings.Reader":
+			inMem = true
+		}
+	}
+	if src.S.K == KRef && (src.S.Name == "bytes_Buffer" || src.S.Name == "strings_Reader") {
+		inMem = true
+	}
+	if inMem {
+		fr.setStream(r, fr.stream(readerRef(src)))
+	} else {
+		fr.setStream(r, ex.vc.fresh("netstream", SString))
+	}
+	fr.setGhostAt("RU", r, "\"\"")
+	fr.setGhostAt("RE", r, "0")
+	return &Val{T: r, S: SRef("bufio_Reader")}
+}
+
+// readLine models (*bufio.Reader).ReadLine on the stream s of reader rd:
+//   - error (always when the stream is empty): nothing is consumed;
+//   - a complete line: the bytes up to the first "\n" with the line ending ("\n" or "\r\n") dropped, isPrefix false;
+//   - no "\n" left: the rest of the stream as it is, isPrefix false;
+//   - a fragment (line longer than the buffer, whatever its size): a non-empty prefix of the line that does not
+//     end in "\r" and stops short of the "\n", isPrefix true.
+// The returned slice aliases the reader's buffer until the next read (Borrow).
+func (fr *Frame) readLine(rdv *Val) *Val {
+	ex := fr.ex
+	vc := ex.vc
+	rd := rdv.T
+	cur := vc.define("rlstream", SString, fr.stream(rd))
+	errv := fr.havocVal("rlerr", SAny)
+	ok := eq(errv.T, "anyNil")
+	vc.assume(imp(eq(cur, "\"\""), not(ok)))
+	isPrefix := vc.fresh("rlprefix", SBool)
+	flen := vc.fresh("rlfrag", SInt)
+	frag := vc.define("rlfragment", SString, "(str.substr "+cur+" 0 "+flen+")")
+	fragRest := vc.define("rlfragrest", SString, "(str.substr "+cur+" "+flen+" (str.len "+cur+"))")
+	// a fragment: non-empty, no line feed, does not end in a carriage return, stops short of the line feed;
+	// splitting it off does not change what the line is (lemma C11_line_concat, proved from the definitions)
+	vc.assume(imp(and(ok, isPrefix), and("(> "+flen+" 0)", "(<= "+flen+" (str.len "+cur+"))",
+		not("(str.contains "+frag+" "+smtString("\n")+")"), not("(str.suffixof "+smtString("\r")+" "+frag+")"),
+		eq(cur, "(str.++ "+frag+" "+fragRest+")"),
+		eq("(lineOf "+cur+")", "(str.++ "+frag+" (lineOf "+fragRest+"))"),
+		eq("(afterLine "+cur+")", "(afterLine "+fragRest+")"))))
+	line := vc.define("rlline", SString, ite(not(ok), "\"\"", ite(isPrefix, frag, "(lineOf "+cur+")")))
+	rest := ite(not(ok), cur, ite(isPrefix, fragRest, "(afterLine "+cur+")"))
+	fr.setStream(rd, rest)
+	fr.setGhostAt("RU", rd, "\"\"")
+	fr.bumpEpoch(rd)
+	re := "(select " + ex.get(fr.cur, fr.ghost("RE")) + " " + rd + ")"
+	lv := &Val{T: line, S: SString, Borrow: &Borrow{Active: ok, Reader: rd, Epoch: vc.define("rlepoch", SInt, re)}}
+	return tuple(lv, &Val{T: and(ok, isPrefix), S: SBool}, errv)
 }
 
 // resolveAddr models net.Resolve{UDP,TCP}Addr: a fresh address object or an error; the printed form of a
